@@ -425,6 +425,9 @@ func body(sc scenario, scratch string) func() string {
 func main() {
 	hk.Main(&hk.Check{
 		ID: prop,
+		// S15 (repaired): once per process, the first formatting of a local time raced with the encrypt
+		// filter's deep copy walking into time.Local; only a fresh process can show it again
+		RegressionReplays: []string{"regress/C19-time-local.json"},
 		Scenarios: func(tier string) []string {
 			var n []string
 			for _, s := range scenarios(tier) {
